@@ -609,3 +609,36 @@ Proof.
       * intros H ty' q' [Heq|Hin]; [inversion Heq; subst; exact E|eapply H; exact Hin].
       * intros H ty' q' Hin. eapply H. right. exact Hin.
 Qed.
+
+(* the fuel of map_fields: with need_fields steps the result does not depend on the fuel, whatever the
+   tags and post-actions *)
+Lemma need_fields_pos l : 1 <= need_fields l.
+Proof. destruct l; cbn [need_fields]; lia. Qed.
+
+Lemma mf_fuel acts ptr : forall fuel fields i path acc k,
+  need_fields fields <= fuel ->
+  map_fields (fuel + k) acts ptr fields i path acc = map_fields fuel acts ptr fields i path acc.
+Proof.
+  induction fuel as [|fuel IH]; intros fields i path acc k Hn; [pose proof (need_fields_pos fields); lia|].
+  cbn [Nat.add map_fields]. destruct fields as [|[ex nm tags ft] r]; [reflexivity|].
+  cbn [need_fields f_ft] in Hn.
+  destruct ex; cbn [negb]; [|apply IH; lia].
+  destruct (tags_loop acts (path ++ [i]) ft tags _) as [st1|]; [|reflexivity].
+  destruct (handle_actions (path ++ [i]) ft _ st1) as [st2|]; [|reflexivity].
+  destruct (handle_actions (path ++ [i]) ft _ st2) as [st3|]; [|reflexivity].
+  destruct (fs_skip st3); [apply IH; lia|].
+  destruct ft as [t|tid sub]; [apply IH; lia|].
+  destruct (fs_whole st3); [apply IH; lia|].
+  rewrite need_struct in Hn.
+  rewrite (IH sub 0 (path ++ [i]) _ k) by lia.
+  destruct (map_fields fuel acts ptr sub 0 (path ++ [i]) _) as [acc2|]; [apply IH; lia|reflexivity].
+Qed.
+
+Lemma struct_plan_fuel acts ptr tid fields k :
+  map_fields (2 * fsize (FStruct tid fields) + 2 + k) acts ptr fields 0 [] (mkFplan [] [])
+  = struct_plan acts ptr (FStruct tid fields).
+Proof.
+  unfold struct_plan. apply mf_fuel.
+  pose proof (need_bound (fsize (FStruct tid fields)) (FStruct tid fields) (le_n _)) as H.
+  rewrite need_struct in H. lia.
+Qed.
